@@ -306,6 +306,59 @@ theorem b64Decode_nopad_of_padded {a : Alphabet} (ha : Rfc a) (allow : Bool) :
       · right
         simp [b64Encode, hrest, b64Decode, e0, e1, e2, e3, ih]
 
+/-! ## base64: characters outside the alphabet -/
+
+theorem scanSuffix_bad (a : Alphabet) (c : Char) (hc : symVal a c = none) (hp : c ≠ '=') :
+    ∀ (suf : List Char) (i pads : Nat) (ms : List Nat), c ∈ suf → scanSuffix a suf i pads ms = none
+  | [], _, _, _, h => by cases h
+  | x :: xs, i, pads, ms, h => by
+    unfold scanSuffix
+    by_cases hx : x = '='
+    · have hm : c ∈ xs := by
+        rcases List.mem_cons.mp h with h | h
+        · exact absurd (h.trans hx) hp
+        · exact h
+      rw [if_pos hx]
+      split
+      · rfl
+      · exact scanSuffix_bad a c hc hp xs _ _ _ hm
+    · rw [if_neg hx]
+      split
+      · rfl
+      · rcases List.mem_cons.mp h with h | h
+        · subst h; rw [hc]
+        · cases hv : symVal a x with
+          | none => rfl
+          | some v => exact scanSuffix_bad a c hc hp xs _ _ _ h
+
+/-- a character outside the selected alphabet (and not `=`) anywhere in the text: refused -/
+theorem b64Decode_bad_char (a : Alphabet) (pm : PadMode) (allow : Bool) (c : Char)
+    (hc : symVal a c = none) (hp : c ≠ '=') :
+    ∀ (s : List Char), c ∈ s → b64Decode a pm allow s = none
+  | [], h => by cases h
+  | [x0], h => by
+    simp only [b64Decode, decodeSuffix, scanSuffix_bad a c hc hp _ 0 0 [] h]
+  | [x0, x1], h => by
+    simp only [b64Decode, decodeSuffix, scanSuffix_bad a c hc hp _ 0 0 [] h]
+  | [x0, x1, x2], h => by
+    simp only [b64Decode, decodeSuffix, scanSuffix_bad a c hc hp _ 0 0 [] h]
+  | [x0, x1, x2, x3], h => by
+    simp only [b64Decode, decodeSuffix, scanSuffix_bad a c hc hp _ 0 0 [] h]
+  | x0 :: x1 :: x2 :: x3 :: x4 :: rest, h => by
+    unfold b64Decode
+    by_cases hin : c ∈ x4 :: rest
+    · rw [b64Decode_bad_char a pm allow c hc hp (x4 :: rest) hin]
+      split <;> rfl
+    · have h4 : c = x0 ∨ c = x1 ∨ c = x2 ∨ c = x3 := by
+        simp only [List.mem_cons] at h hin
+        rcases h with h | h | h | h | h
+        · exact Or.inl h
+        · exact Or.inr (Or.inl h)
+        · exact Or.inr (Or.inr (Or.inl h))
+        · exact Or.inr (Or.inr (Or.inr h))
+        · exact absurd h hin
+      rcases h4 with h | h | h | h <;> subst h <;> simp [hc]
+
 /-! ## decimal -/
 
 theorem digitChar_toNat : ∀ (k : Fin 10), (Char.ofNat (k.val + 48)).toNat = k.val + 48 := by decide
@@ -359,6 +412,29 @@ theorem parseU32_natDigits (n : Nat) (h : n < 2 ^ 32) : parseU32 (natDigits n) =
     split
     · rename_i heq; cases heq; exact absurd rfl hplus
     · simp [parseDigits, hall, hv, h]
+
+theorem parseUnsigned_natDigits (bound n : Nat) :
+    parseUnsigned bound (natDigits n) = if n < bound then some n else none := by
+  obtain ⟨pre, he, hne, hall, hval⟩ := natDigitsAux_spec (n + 1) n [] (by omega)
+  simp only [List.append_nil] at he
+  unfold natDigits
+  rw [he]
+  have hv : digitsVal pre = n := by
+    have := hval 0
+    have hf : dstep = fun acc c => acc * 10 + (c.toNat - 48) := rfl
+    unfold digitsVal
+    rw [← hf, this]
+    omega
+  cases pre with
+  | nil => exact absurd rfl hne
+  | cons c cs =>
+    have hc : isDigit c = true := by simp at hall; exact hall.1
+    have hplus : c ≠ '+' := by
+      intro hcp; subst hcp; revert hc; decide
+    unfold parseUnsigned
+    split
+    · rename_i heq; cases heq; exact absurd rfl hplus
+    · by_cases h : n < bound <;> simp [parseDigits, hall, hv, h]
 
 /-! ## rendered fields contain no separator -/
 
